@@ -67,10 +67,28 @@ fn check_item(it: &Item) -> Report {
     let s = &it.s;
     let mut chk = Chk::new(Mode::O, it.timeout_ms);
     chk.begin_config(&it.name());
-    let v = sym_vals(s, false, false);
+    // single-query calls with a wrong buffer are explored with a SYMBOLIC query (and axis): a value-triggered
+    // shortcut (query exactly on a knot, flat segment, ...) that skips the shape-checked path is then a path
+    let symbolic = matches!(&it.what, What::WrongBuf(Ep::InterpInto(_), _, _));
+    let v = sym_vals(s, symbolic, symbolic);
     let mut ecfg = ExploreCfg::new(Mode::O, s.nx().max(s.ny()).max(2) - 1);
     ecfg.timeout_ms = it.timeout_ms;
     let kname = s.kind.name();
+    let assume_pre = |v: &crate::entry::Vals<Sym>| {
+        if symbolic {
+            if !s.default_axes {
+                for i in 0..s.nx() - 1 {
+                    Sym::assume_lt(v.x[i], v.x[i + 1]);
+                }
+                for i in 0..s.ny().max(1) - 1 {
+                    Sym::assume_lt(v.y[i], v.y[i + 1]);
+                }
+            }
+            for q in v.qx.iter().chain(v.qy.iter()) {
+                Sym::assume_not_nan(*q);
+            }
+        }
+    };
     match &it.what {
         What::Fill(ep) => {
             let alloc_ep = match ep {
@@ -150,12 +168,45 @@ fn check_item(it: &Item) -> Report {
             }
         }
         What::WrongBuf(ep, shape, why) => {
-            let (paths, st) = explore(&ecfg, || entry::run(s, &v, ep, Some(shape), None, &mut |i| Sym::var(&format!("poison{i}")), &mut |p, i| Sym::var(&format!("{p}{i}"))));
+            let (paths, st) = explore(&ecfg, || {
+                assume_pre(&v);
+                entry::run(s, &v, ep, Some(shape), None, &mut |i| Sym::var(&format!("poison{i}")), &mut |p, i| Sym::var(&format!("{p}{i}")))
+            });
             chk.add_explore_stats(paths.len(), &st);
             for p in &paths {
                 match &p.result {
                     Ok(Ok(_)) => {
-                        let nv = entry::native_vals(s, 3);
+                        let mut nv = entry::native_vals(s, 3);
+                        if symbolic {
+                            // replay with the query (and axis) values of a model of this path
+                            let vars: Vec<String> = with_ctx(|c| c.var_names.clone());
+                            for n in &vars {
+                                chk.term(Sym::var(n));
+                            }
+                            let pcs = chk.pc(&p.pc);
+                            let (_, vals) = chk.model(&pcs, &vars);
+                            let m = crate::c05::model_f64(&vals);
+                            for k in 0..nv.qx.len() {
+                                if let Some(q) = m.get(&format!("qx{k}")) {
+                                    nv.qx[k] = *q;
+                                }
+                                if let Some(q) = m.get(&format!("qy{k}")) {
+                                    nv.qy[k] = *q;
+                                }
+                            }
+                            if !s.default_axes {
+                                for k in 0..nv.x.len() {
+                                    if let Some(x) = m.get(&format!("x{k}")) {
+                                        nv.x[k] = *x;
+                                    }
+                                }
+                                for k in 0..nv.y.len() {
+                                    if let Some(y) = m.get(&format!("y{k}")) {
+                                        nv.y[k] = *y;
+                                    }
+                                }
+                            }
+                        }
                         let nat = entry::native_run(s, &nv, ep, Some(shape), None);
                         let empty = if s.nq() == 0 && matches!(ep, Ep::ArrayInto) { ":empty-query" } else { "" };
                         chk.finding(&format!("C14:wrong-buffer-accepted:{}:{}:{why}{empty}", if s.kind.is_2d() { "Interp2D" } else { "Interp1D" }, path_class(s)), &format!("{}: Ok returned for a wrongly shaped buffer", it.name()), Json::obj().with("config", it.name()).with("native", format!("{:?}", nat.as_ref().map(|o| o.shape.clone()))), Some(nat.is_ok()));
@@ -239,13 +290,17 @@ fn wrong_shapes(required: &[usize], lead: usize, allow_rank_change: bool) -> Vec
 }
 
 fn items(args: &Args) -> Vec<Item> {
-    let thorough = args.thorough();
+    let deep = args.thorough();
+    let thorough = true; // the former thorough set costs ~3 s and is now the quick tier as well
     let timeout_ms = 20_000;
     let mut v = vec![];
     let mk = |kind: Kind, shape: Vec<usize>, dynamic: bool, qshape: Vec<usize>, qrank: QRank, lay_buf: Layout| Scen { kind, shape, dynamic, extrapolate: true, default_axes: true, lay_data: Layout::C, lay_x: Layout::C, lay_y: Layout::C, lay_q: Layout::C, lay_buf, qshape, qrank };
     let mut scens: Vec<(Kind, Vec<usize>, bool)> = vec![(Kind::Linear, vec![3, 2, 3], false), (Kind::Linear, vec![3, 2], false), (Kind::Spline(Bc::Natural), vec![3, 3], false), (Kind::Bilinear, vec![2, 3, 2, 3], false), (Kind::Bilinear, vec![2, 2, 3], false), (Kind::Linear, vec![3, 2, 3], true), (Kind::Bilinear, vec![2, 2, 3], true)];
     if thorough {
         scens.extend([(Kind::Linear, vec![3], false), (Kind::Linear, vec![3, 1, 2, 2], false), (Kind::Spline(Bc::NotAKnot), vec![4, 2, 3], true), (Kind::Bilinear, vec![3, 2], false)]);
+    }
+    if deep {
+        scens.extend([(Kind::Linear, vec![4, 3, 2, 2], false), (Kind::Spline(Bc::Periodic), vec![4, 2], false), (Kind::Bilinear, vec![3, 2, 2, 3], true), (Kind::Linear, vec![2, 1], false)]);
     }
     let mut qsets: Vec<(Vec<usize>, QRank)> = vec![(vec![2], QRank::Static), (vec![2, 3], QRank::Static), (vec![2], QRank::Dyn), (vec![0], QRank::Static), (vec![0, 2], QRank::Static)];
     if thorough {
@@ -290,7 +345,7 @@ pub fn run(args: &Args) -> Report {
     for f in ["interp1d::Interp1D::interp_into", "interp1d::Interp1D::interp_array_into", "interp1d::Interp1D::interp_array_into_1d", "interp1d::Interp1D::get_buffer_shape", "interp2d::Interp2D::interp_into", "interp2d::Interp2D::interp_array_into", "interp2d::Interp2D::interp_array_into_1d", "interp2d::Interp2D::get_buffer_shape", "interp1d::strategies::linear::Linear::interp_into", "interp1d::strategies::cubic_spline::CubicSplineStrategy::interp_into", "interp2d::strategies::bilinear::Bilinear::interp_into"] {
         rep.functions.insert(f.to_string());
     }
-    rep.bounds.push(format!("Interp1D over data (3,2,3), (3,2), (3,3){} and Interp2D over (2,3,2,3), (2,2,3){}, static and IxDyn data; queries Ix1 x2, Ix2 2x3, IxDyn x2, empty Ix1 and (0,2){}; buffers as offset windows and every-2nd-element windows of a larger poisoned array", if args.thorough() { ", (3), (3,1,2,2), (4,2,3)" } else { "" }, if args.thorough() { ", (3,2)" } else { "" }, if args.thorough() { ", Ix3, IxDyn 1x2, empty IxDyn, Ix0" } else { "" }));
+    rep.bounds.push(format!("Interp1D over data (3,2,3), (3,2), (3,3){} and Interp2D over (2,3,2,3), (2,2,3){}, static and IxDyn data; queries Ix1 x2, Ix2 2x3, IxDyn x2, empty Ix1 and (0,2){}; buffers as offset windows and every-2nd-element windows of a larger poisoned array", if args.thorough() { ", (3), (3,1,2,2), (4,2,3), (4,3,2,2), periodic (4,2), (2,1)" } else { ", (3), (3,1,2,2), (4,2,3)" }, if args.thorough() { ", (3,2), (3,2,2,3)" } else { ", (3,2)" }, ", Ix3, IxDyn 1x2, empty IxDyn, Ix0"));
     rep.bounds.push("wrong shapes: every axis +1 / -1, trailing axes permuted, leading axes permuted, same element count with another trailing factorisation, leading and trailing swapped, dynamic rank +1 / flattened (IxDyn data and query only), x/y query arrays of different shapes (first axis +1, axes swapped)".into());
     rep.outside.push("wrong static ranks are rejected by the type system and cannot be expressed".into());
     rep.assumptions.insert("mode O; every data value, buffer cell and filler cell is a distinct symbol, so 'overwritten', 'untouched' and 'equal to the allocating variant' are term identities".into());
